@@ -1528,4 +1528,400 @@ theorem keysDisjointB_iff (T : List Opt) : keysDisjointB T = true ↔ KeysDisjoi
 theorem noSepFlagB_iff (T : List Opt) : noSepFlagB T = true ↔ NoSepFlag T := by
   simp [noSepFlagB, NoSepFlag]
 
+/-! ## Round 3: what counts as a known key, files in order, per-action rule, section lookup, composite parser,
+`from_namespace` -/
+
+/-- **the exact rule of `ValidatorParser`**: a key is known iff it is a long option string of some option, with
+or without its leading `--` — nothing else (not the `dest`, not `_` for `-`, not another case) -/
+theorem isKnown_iff (T : List Opt) (k : Str) :
+    isKnown T k = true ↔ ∃ o ∈ T, ∃ k', ('-' :: '-' :: k') ∈ o.flags ∧ (k = k' ∨ k = '-' :: '-' :: k') := by
+  have hkeys : ∀ o : Opt, k ∈ possibleKeys o ↔ ∃ k', ('-' :: '-' :: k') ∈ o.flags ∧ (k = k' ∨ k = '-' :: '-' :: k') := by
+    intro o
+    simp only [possibleKeys, List.mem_flatMap]
+    constructor
+    · rintro ⟨f, hf, hk⟩
+      split at hk
+      · next k' => exact ⟨k', hf, by simpa using hk⟩
+      · simp at hk
+    · rintro ⟨k', hf, hk⟩
+      exact ⟨_, hf, by simpa using hk⟩
+  constructor
+  · intro h
+    unfold isKnown at h
+    cases hl : lookupKey T k with
+    | none => simp [hl] at h
+    | some o =>
+      obtain ⟨ho, hk⟩ := lookupKey_some T k o hl
+      exact ⟨o, ho, (hkeys o).mp hk⟩
+  · rintro ⟨o, ho, hk⟩
+    have hk' := (hkeys o).mpr hk
+    unfold isKnown lookupKey
+    rw [List.find?_isSome]
+    exact ⟨o, by simpa using ho, by simpa using hk'⟩
+
+-- the `dest` (`projectname`), `_` for `-`, another case, a single dash: all unknown; both spellings of the option: known
+example : isKnown exTable "projectname".toList = false ∧ isKnown exTable "project_name".toList = false ∧
+    isKnown exTable "Project-Name".toList = false ∧ isKnown exTable "-project-name".toList = false ∧
+    isKnown exTable "W".toList = false ∧ isKnown exTable "-W".toList = false ∧
+    isKnown exTable "project-name".toList = true ∧ isKnown exTable "--project-name".toList = true := by decide +kernel
+
+theorem alreadyOn_mono (a b : List Arg) (flags : List Str) (hab : ∀ x ∈ a, x ∈ b) (h : alreadyOn a flags = true) :
+    alreadyOn b flags = true := by
+  rw [alreadyOn_iff] at h ⊢
+  obtain ⟨f, hf, x, hx, he⟩ := h
+  exact ⟨f, hf, x, hab x hx, he⟩
+
+theorem mergeFile_keeps (T : List Opt) (args : List Arg) (d : List (Str × FileVal)) (r : List Arg)
+    (h : mergeFile T args d = .ok r) : ∀ x ∈ args, x ∈ r := by
+  unfold mergeFile mergeOne at h
+  cases hc : configArgs T args (validate T d).1 with
+  | error e => simp [hc] at h
+  | ok extra =>
+    simp only [hc, MergeR.ok.injEq] at h; subst h
+    intro x hx
+    have : x ∈ args.take (insertionIndex args) ++ args.drop (insertionIndex args) := by
+      rw [List.take_append_drop]; exact hx
+    simp only [List.mem_append] at this ⊢
+    rcases this with h1 | h1
+    · exact Or.inl (Or.inl h1)
+    · exact Or.inr h1
+
+/-- files merged after an option is on the vector do not change what the option gets, however many follow -/
+theorem foldl_merge_keeps (T : List Opt) (hF : FlagsDisjoint T) (hS : NoSepFlag T) (o : Opt) (ho : o ∈ T)
+    (gs : List (List (Str × FileVal))) (a r : List Arg) (hon : alreadyOn a o.flags = true)
+    (h : gs.foldl (fun acc f => match acc with
+                                | .ok args => mergeFile T args f
+                                | e => e) (MergeR.ok a) = .ok r) :
+    effective o r = effective o a := by
+  induction gs generalizing a with
+  | nil => simp only [List.foldl_nil, MergeR.ok.injEq] at h; rw [h]
+  | cons g gs ih =>
+    simp only [List.foldl_cons] at h
+    cases hg : mergeFile T a g with
+    | error e =>
+      rw [hg] at h
+      have : ∀ gs' : List (List (Str × FileVal)),
+          gs'.foldl (fun acc f => match acc with
+                                  | .ok args => mergeFile T args f
+                                  | e => e) (MergeR.error e : MergeR (List Arg)) = .error e := by
+        intro gs'; induction gs' with
+        | nil => rfl
+        | cons x xs ihx => simpa using ihx
+      rw [this gs] at h; cases h
+    | ok a' =>
+      rw [hg] at h
+      have h1 := cli_overrides_file T hF hS o ho a g a' hon hg
+      have hon' := alreadyOn_mono a a' o.flags (mergeFile_keeps T a g a' hg) hon
+      rw [ih a' hon' h, h1]
+
+/-- **files in order, any number**: the file read first in `reversed(config_streams)` — the LAST of the list:
+an explicit `--config` file, else `pydoctor.ini`, `setup.cfg`, `pyproject.toml` — decides every option it sets
+(once the option is on the vector, no earlier file changes it); files are merged, not replaced: options it does
+not set come from the others -/
+theorem last_file_wins (T : List Opt) (hF : FlagsDisjoint T) (hS : NoSepFlag T) (o : Opt) (ho : o ∈ T)
+    (cli : List Arg) (fs : List (List (Str × FileVal))) (f : List (Str × FileVal)) (a2 args : List Arg)
+    (h2 : mergeFile T cli f = .ok a2) (hon : alreadyOn a2 o.flags = true)
+    (h : mergeFiles T cli (fs ++ [f]) = .ok args) :
+    effective o args = effective o a2 := by
+  unfold mergeFiles at h
+  simp only [List.reverse_append, List.reverse_cons, List.reverse_nil, List.nil_append, List.cons_append,
+    List.foldl_cons, h2] at h
+  exact foldl_merge_keeps T hF hS o ho fs.reverse a2 args hon h
+
+/-- the command line beats every file, any number of them -/
+theorem cli_overrides_files (T : List Opt) (hF : FlagsDisjoint T) (hS : NoSepFlag T) (o : Opt) (ho : o ∈ T)
+    (cli : List Arg) (fs : List (List (Str × FileVal))) (args : List Arg)
+    (hon : alreadyOn cli o.flags = true) (h : mergeFiles T cli fs = .ok args) :
+    effective o args = effective o cli :=
+  foldl_merge_keeps T hF hS o ho fs.reverse cli args hon h
+
+/-- **per action type**, `append` (what C13 relies on for `--privacy`): values given on the command line REPLACE
+the file's list — the option accumulates exactly the command line's values, in order -/
+theorem append_cli_replaces_file (T : List Opt) (hF : FlagsDisjoint T) (hS : NoSepFlag T) (o : Opt) (ho : o ∈ T)
+    (hkind : o.kind = .append) (f : Str) (hf : f ∈ o.flags) (vs : List Str) (hvs : vs ≠ [])
+    (fs : List (List (Str × FileVal))) (args : List Arg)
+    (h : mergeFiles T (vs.map fun v => ⟨f, some v⟩) fs = .ok args) :
+    effective o args = .many vs := by
+  have hon : alreadyOn (vs.map fun v => (⟨f, some v⟩ : Arg)) o.flags = true := by
+    rw [alreadyOn_iff]
+    obtain ⟨v, vs', rfl⟩ := List.exists_cons_of_ne_nil hvs
+    exact ⟨f, hf, ⟨f, some v⟩, by simp, rfl⟩
+  rw [cli_overrides_files T hF hS o ho _ fs args hon h, append_cli_in_order o hkind f hf vs]
+
+/-- `store`: the command line's last value; `flag`: set; `count`: the number of occurrences on the command line
+(the file's count is dropped as soon as the exact option string is on the command line) -/
+theorem store_cli_replaces_file (T : List Opt) (hF : FlagsDisjoint T) (hS : NoSepFlag T) (o : Opt) (ho : o ∈ T)
+    (hkind : o.kind = .store) (f : Str) (hf : f ∈ o.flags) (v : Str)
+    (fs : List (List (Str × FileVal))) (args : List Arg) (h : mergeFiles T [⟨f, some v⟩] fs = .ok args) :
+    effective o args = .one (some v) := by
+  have hon : alreadyOn [(⟨f, some v⟩ : Arg)] o.flags = true := by
+    rw [alreadyOn_iff]; exact ⟨f, hf, ⟨f, some v⟩, by simp, rfl⟩
+  rw [cli_overrides_files T hF hS o ho _ fs args hon h]
+  simp [effective, hkind, occurrences, live, isSep, hf]
+
+theorem count_cli_replaces_file (T : List Opt) (hF : FlagsDisjoint T) (hS : NoSepFlag T) (o : Opt) (ho : o ∈ T)
+    (hkind : o.kind = .count) (f : Str) (hf : f ∈ o.flags) (hsep : f ≠ ['-', '-']) (n : Nat) (hn : n ≠ 0)
+    (fs : List (List (Str × FileVal))) (args : List Arg)
+    (h : mergeFiles T (List.replicate n ⟨f, none⟩) fs = .ok args) :
+    effective o args = .count n := by
+  have hon : alreadyOn (List.replicate n (⟨f, none⟩ : Arg)) o.flags = true := by
+    rw [alreadyOn_iff]
+    exact ⟨f, hf, ⟨f, none⟩, by simp [List.mem_replicate, hn], rfl⟩
+  rw [cli_overrides_files T hF hS o ho _ fs args hon h]
+  have hc : o.flags.contains f = true := by simpa using hf
+  have hs : isSep (⟨f, none⟩ : Arg) = false := by simp [isSep, hsep]
+  have hlive : live (List.replicate n (⟨f, none⟩ : Arg)) = List.replicate n ⟨f, none⟩ := by
+    unfold live
+    have := List.takeWhile_append_of_pos (p := fun a => !isSep a) (l₁ := List.replicate n (⟨f, none⟩ : Arg)) (l₂ := [])
+      (by intro a ha; rw [List.mem_replicate] at ha; rw [ha.2]; simp [hs])
+    simpa using this
+  have hfilt : (List.replicate n (⟨f, none⟩ : Arg)).filter (fun a => o.flags.contains a.name) = List.replicate n ⟨f, none⟩ := by
+    rw [List.filter_eq_self]; intro a ha; rw [List.mem_replicate] at ha; rw [ha.2]; exact hc
+  simp only [List.contains_eq_mem] at hfilt
+  simp [effective, hkind, occurrences, hlive, hfilt]
+
+/-- `-v`/`-q`: `verbosity` is the difference of the two counts; counts add up within one source -/
+theorem verbosity_spec (a b q : Nat) : verbosity (a + b) q = verbosity a q + b ∧ verbosity a (q + b) = verbosity a q - b := by
+  simp only [verbosity, Int.ofNat_eq_natCast, Int.natCast_add]; constructor <;> omega
+
+/-! ### INI: a plain multi-line value is the list of its lines -/
+
+theorem splitOn_lines (lines : List Str) (hl : lines ≠ []) (hnl : ∀ l ∈ lines, '\n' ∉ l) :
+    (['\n'].intercalate lines).splitOn '\n' = lines :=
+  List.splitOn_intercalate '\n' hnl hl
+
+/-- the text of a plain multi-line value: its first line is `a :: as` -/
+def joinLines (first : Str) (more : List Str) : Str := ['\n'].intercalate (first :: more)
+
+theorem joinLines_cons (first l : Str) (more : List Str) :
+    joinLines first (l :: more) = first ++ '\n' :: joinLines l more := by
+  simp [joinLines, List.intercalate]
+
+theorem joinLines_head (c : Char) (r : Str) (more : List Str) : ∃ t, joinLines (c :: r) more = c :: t := by
+  cases more with
+  | nil => exact ⟨r, by simp [joinLines, List.intercalate]⟩
+  | cons l m => exact ⟨_, by rw [joinLines_cons]; rfl⟩
+
+theorem rstripNl_of_last (s : Str) (c : Char) (hc : c ≠ '\n') : rstripNl (s ++ [c]) = s ++ [c] := by
+  simp [rstripNl, hc]
+
+theorem joinLines_last (first : Str) (more : List Str) (hne : ∀ l ∈ first :: more, l ≠ []) :
+    ∃ s c, joinLines first more = s ++ [c] ∧ c ∈ (first :: more).getLast (by simp) := by
+  induction more generalizing first with
+  | nil =>
+    have h1 : first ≠ [] := hne first (by simp)
+    refine ⟨first.dropLast, first.getLast h1, ?_, ?_⟩
+    · simp [joinLines, List.intercalate, List.dropLast_concat_getLast h1]
+    · simp
+  | cons l m ih =>
+    obtain ⟨s, c, hs, hc⟩ := ih l (fun x hx => hne x (by simp at hx ⊢; exact Or.inr hx))
+    refine ⟨first ++ '\n' :: s, c, ?_, ?_⟩
+    · rw [joinLines_cons, hs]; simp
+    · simpa using hc
+
+/-- **INI, one item per line**: a value of two or more non-empty lines, the first not starting with a quote or
+`[`, is — with `split_ml_text_to_list` — the list of its lines in order (and the text itself without it) -/
+theorem ini_multiline_list (c : Char) (r l : Str) (more : List Str)
+    (hc : isQuoteChar c = false) (hb : c ≠ '[')
+    (hnl : ∀ x ∈ (c :: r) :: l :: more, '\n' ∉ x) (hne : ∀ x ∈ (c :: r) :: l :: more, x ≠ []) :
+    iniValue true (joinLines (c :: r) (l :: more)) = .list ((c :: r) :: l :: more) ∧
+    iniValue false (joinLines (c :: r) (l :: more)) = .str (joinLines (c :: r) (l :: more)) := by
+  obtain ⟨t, ht⟩ := joinLines_head c r (l :: more)
+  have hq : isQuoted true (joinLines (c :: r) (l :: more)) = false := by
+    rw [ht]; exact not_quoted_of_head true _ (fun d hd => by simp at hd; rw [← hd]; exact hc)
+  obtain ⟨s, e, hs, he⟩ := joinLines_last (c :: r) (l :: more) hne
+  have hlastmem : ((c :: r) :: l :: more).getLast (by simp) ∈ (c :: r) :: l :: more := List.getLast_mem _
+  have he' : e ≠ '\n' := fun h => hnl _ hlastmem (h ▸ he)
+  have hcontains : (rstripNl (joinLines (c :: r) (l :: more))).contains '\n' = true := by
+    rw [hs, rstripNl_of_last s e he', ← hs, joinLines_cons]; simp
+  have hsplit : (joinLines (c :: r) (l :: more)).splitOn '\n' = (c :: r) :: l :: more :=
+    splitOn_lines ((c :: r) :: l :: more) (by simp) hnl
+  have hfilter : ((c :: r) :: l :: more).filter (fun i => !i.isEmpty) = (c :: r) :: l :: more := by
+    rw [List.filter_eq_self]; intro x hx
+    have := hne x hx
+    cases x with
+    | nil => exact absurd rfl this
+    | cons _ _ => rfl
+  have hempty : (joinLines (c :: r) (l :: more)).isEmpty = false := by rw [ht]; rfl
+  have hhead : (joinLines (c :: r) (l :: more)).head? = some c := by rw [ht]; rfl
+  constructor
+  · unfold iniValue iniValueOld
+    simp only [noInterp, hempty, hhead, hq, hcontains, hsplit, hfilter]
+    simp [hb]
+  · unfold iniValue iniValueOld
+    simp only [noInterp, hempty, hhead, hq]
+    simp [hb]
+
+example : iniValue true (joinLines "HIDDEN:a.b".toList ["PUBLIC:a.b.c".toList, "x y".toList]) =
+    .list ["HIDDEN:a.b".toList, "PUBLIC:a.b.c".toList, "x y".toList] := by decide +kernel
+
+/-! ### section names and the TOML section lookup -/
+
+/-- `parse_toml_section_name` on the three names pydoctor uses (`CONFIG_SECTIONS`) -/
+theorem section_constants :
+    parseSectionName "tool.pydoctor".toList = some ["tool".toList, "pydoctor".toList] ∧
+    parseSectionName "tool:pydoctor".toList = some ["tool:pydoctor".toList] ∧
+    parseSectionName "pydoctor".toList = some ["pydoctor".toList] := by decide +kernel
+
+-- the docstring's examples: blanks around the parts, quoted parts (quotes after a blank are not csv quotes)
+example : parseSectionName " g .  h  . i ".toList = some ["g".toList, "h".toList, "i".toList] := by decide +kernel
+example : parseSectionName " j . \"k\" . 'l' ".toList = some ["j".toList, "k".toList, "l".toList] := by decide +kernel
+example : parseSectionName "\"a.b\".c".toList = some ["a.b".toList, "c".toList] := by decide +kernel
+
+def pydoctorSectionPaths : List (List Str) :=
+  [["tool".toList, "pydoctor".toList], ["tool:pydoctor".toList], ["pydoctor".toList]]
+
+def kTool : Str := "tool".toList
+def kPydoctor : Str := "pydoctor".toList
+
+/-- the `[tool.pydoctor]` table of a TOML document is found through the two-step lookup whatever else the
+document holds -/
+theorem getTomlSection_tool_pydoctor (doc t sec : List (Str × TNode))
+    (h1 : lookupNode doc kTool = some (.table t)) (h2 : lookupNode t kPydoctor = some (.table sec))
+    (hne : sec ≠ []) (htne : t ≠ []) :
+    getTomlSection doc [kTool, kPydoctor] = .found sec := by
+  have ht : (TNode.table t).truthy = true := by cases t <;> simp_all [TNode.truthy]
+  have hs : (TNode.table sec).truthy = true := by cases sec <;> simp_all [TNode.truthy]
+  simp [getTomlSection, h1, h2, ht, hs]
+
+/-- the first section of the list that exists and is non-empty decides; the later ones are not looked at -/
+theorem tomlParse_first (path : List Str) (more : List (List Str)) (doc kvs : List (Str × TNode))
+    (h : getTomlSection doc path = .found kvs) :
+    tomlParse (path :: more) doc = tomlParse [path] doc := by
+  simp only [tomlParse, h]
+
+/-- a section that is absent or empty is skipped -/
+theorem tomlParse_skip (path : List Str) (more : List (List Str)) (doc : List (Str × TNode))
+    (h : getTomlSection doc path = .notFound) :
+    tomlParse (path :: more) doc = tomlParse more doc := by
+  simp only [tomlParse, h]
+
+/-- values keep their meaning: a TOML string is handed on as it is; `true`/`false` become the words the flag
+conversion understands; an integer (zero included) becomes its decimal text — nothing is dropped for being falsy -/
+theorem tnodeItem_spec (s : Str) :
+    tnodeItem (.str s) = some (some (.str s)) ∧
+    tnodeItem (.bool true) = some (some (.str "True".toList)) ∧
+    tnodeItem (.bool false) = some (some (.str "False".toList)) ∧
+    tnodeItem (.int 0) = some (some (.str "0".toList)) ∧
+    tnodeItem (.str []) = some (some (.str [])) := by
+  refine ⟨rfl, rfl, rfl, by decide +kernel, rfl⟩
+
+/-- a TOML boolean for a flag option means the bare option / nothing -/
+theorem toml_bool_flag (o : Opt) (hkind : o.kind = .flag) (last : Str) (hlast : o.flags.getLast? = some last) :
+    (match convertItem o (.str "True".toList) with | .ok l => l = [⟨last, none⟩] | .error _ => False) ∧
+    (match convertItem o (.str "False".toList) with | .ok l => l = [] | .error _ => False) := by
+  have h1 : trueWords.contains (lowerAscii "True".toList) = true := by decide +kernel
+  have h2 : trueWords.contains (lowerAscii "False".toList) = false := by decide +kernel
+  have h3 : falseWords.contains (lowerAscii "False".toList) = true := by decide +kernel
+  constructor
+  · simp only [convertItem, hlast, hkind, h1, ↓reduceIte]
+  · simp only [convertItem, hlast, hkind, h2, h3, ↓reduceIte, Bool.false_eq_true]
+
+example :
+    (match tomlParse pydoctorSectionPaths
+        [("build-system".toList, .table [("requires".toList, .list [] true)]),
+         ("tool".toList, .table [("other".toList, .table [("x".toList, .int 1)]),
+                                  ("pydoctor".toList, .table [("project-name".toList, .str "P".toList),
+                                                               ("verbose".toList, .int 0),
+                                                               ("warnings-as-errors".toList, .bool true),
+                                                               ("privacy".toList, .list [.str "HIDDEN:a".toList] true)])]),
+         ("pydoctor".toList, .table [("project-name".toList, .str "ignored".toList)])] with
+     | .ok items => items.map (·.1) | _ => []) =
+    ["project-name".toList, "verbose".toList, "warnings-as-errors".toList, "privacy".toList] := by decide +kernel
+
+/-! ### `CompositeConfigParser.parse` -/
+
+def IniName (name : Option Str) : Bool :=
+  match name with
+  | some n => endsWith n ".ini".toList || endsWith n ".cfg".toList
+  | none => false
+
+/-- **an INI file is read with the INI rules**: for a stream named `*.ini` / `*.cfg` the INI parser's result is
+the result whenever it accepts the file — whatever the TOML parser would make of it -/
+theorem composite_ini_first {α : Type} (outcome : ParserKind → Option α) (name : Option Str) (r : α)
+    (hn : IniName name = true) (hi : outcome .ini = some r) :
+    compositeParse outcome name pydoctorParsers = some r := by
+  cases name with
+  | none => simp [IniName] at hn
+  | some n =>
+    have h : compositeOrder (some n) pydoctorParsers = [.ini, .toml] := by
+      unfold IniName at hn
+      unfold compositeOrder
+      simp only [hn, ↓reduceIte]
+      rfl
+    simp [compositeParse, h, firstSuccess, hi]
+
+/-- any other name (`pyproject.toml`, a `--config` file without these extensions, a stream without a name):
+TOML first -/
+theorem composite_toml_first {α : Type} (outcome : ParserKind → Option α) (name : Option Str) (r : α)
+    (hn : IniName name = false) (ht : outcome .toml = some r) :
+    compositeParse outcome name pydoctorParsers = some r := by
+  cases name with
+  | none => simp [compositeParse, compositeOrder, pydoctorParsers, firstSuccess, ht]
+  | some n =>
+    have h : compositeOrder (some n) pydoctorParsers = [.toml, .ini] := by
+      unfold IniName at hn
+      unfold compositeOrder
+      simp only [hn, Bool.false_eq_true, ↓reduceIte]
+      rfl
+    simp [compositeParse, h, firstSuccess, ht]
+
+/-- fall-back: whatever the name, the file is refused iff both parsers refuse it, and when exactly one accepts
+it that one's result is used -/
+theorem composite_fallback {α : Type} (outcome : ParserKind → Option α) (name : Option Str) :
+    (compositeParse outcome name pydoctorParsers = none ↔ outcome .toml = none ∧ outcome .ini = none) ∧
+    (outcome .toml = none → compositeParse outcome name pydoctorParsers = outcome .ini) ∧
+    (outcome .ini = none → compositeParse outcome name pydoctorParsers = outcome .toml) := by
+  have horder : compositeOrder name pydoctorParsers = [.toml, .ini] ∨ compositeOrder name pydoctorParsers = [.ini, .toml] := by
+    cases name with
+    | none => left; rfl
+    | some n =>
+      simp only [compositeOrder, pydoctorParsers]
+      split
+      · right; simp
+      · left; rfl
+  unfold compositeParse
+  rcases horder with h | h <;> rw [h] <;> simp only [firstSuccess] <;>
+    cases ht : outcome .toml <;> cases hi : outcome .ini <;> simp
+
+/-- the order is a reordering of the configured parsers: INI ones first (in their order) for INI names -/
+theorem compositeOrder_spec (name : Option Str) (ps : List ParserKind) :
+    (IniName name = false → compositeOrder name ps = ps) ∧
+    (IniName name = true → compositeOrder name ps = ps.filter (· = .ini) ++ ps.filter (· ≠ .ini)) := by
+  cases name with
+  | none => simp [IniName, compositeOrder]
+  | some n =>
+    unfold IniName compositeOrder
+    constructor <;> intro h <;> simp only [h, Bool.false_eq_true, ↓reduceIte]
+
+example : IniName (some "./pydoctor.ini".toList) = true ∧ IniName (some "./setup.cfg".toList) = true ∧
+    IniName (some "./pyproject.toml".toList) = false ∧ IniName (some "pydoctor.conf".toList) = false ∧
+    IniName (some "PYDOCTOR.INI".toList) = false ∧ IniName none = false := by decide +kernel
+
+/-! ### `Options.from_namespace` -/
+
+/-- `--make-html` is on by default unless `--testing` or `--make-intersphinx` is given; given explicitly it is on -/
+theorem makeHtml_spec (given testing mi : Bool) : makeHtml given testing mi = (given || (!testing && !mi)) := by
+  cases given <;> cases testing <;> cases mi <;> rfl
+
+/-- an explicit `--html-viewsource-template` (command line or file — same argument) is kept; without one the
+template follows `--html-viewsource-base`; without a base it is the `#L{lineno}` one -/
+theorem sourceTemplate_spec (t : Str) (base : Option Str) :
+    sourceTemplate (some t) base = t ∧ sourceTemplate none none = tmplL ∧ sourceTemplate none (some []) = tmplL := by
+  refine ⟨rfl, rfl, rfl⟩
+
+example : viewsourceTemplate (some "https://github.com/twisted/pydoctor/tree/master".toList) = tmplL ∧
+    viewsourceTemplate (some "https://sourceforge.net/p/x/code/HEAD/tree".toList) = tmplSf ∧
+    viewsourceTemplate (some "http://bitbucket.org/u/r/src/master".toList) = tmplBb ∧
+    viewsourceTemplate (some "https://sourceforge.net".toList) = tmplL ∧
+    viewsourceTemplate (some " https://bitbucket.org/x".toList) = tmplL := by decide +kernel
+
+/-- `--add-package` entries (the way to give source paths in a file) follow the positional ones, in order -/
+theorem finalSourcepath_spec {α : Type} (pos pkgs : List α) :
+    finalSourcepath pos pkgs = pos ++ pkgs ∧ finalSourcepath [] pkgs = pkgs := ⟨rfl, rfl⟩
+
+theorem sidebarOk_spec (e t : Int) : sidebarOk e t = true ↔ 1 ≤ e ∧ 0 ≤ t := by
+  simp only [sidebarOk, Bool.and_eq_true, Bool.not_eq_true', decide_eq_false_iff_not]
+  omega
+
 end Config
